@@ -33,6 +33,8 @@ type HistSpec struct {
 	// LTX in a fresh file replica: "magic" (bytes 0..15), "page1hdr" (b-tree header of page 1),
 	// "schema" (sqlite_master SQL text).
 	BadImage string `json:"bad_image,omitempty"`
+	// GapOnly: run only the "delete any replica file, then default / TXID / timestamp restore" stream
+	GapOnly bool `json:"gap_only,omitempty"`
 }
 
 type replicaEnv struct {
@@ -127,7 +129,11 @@ func buildReplica(root string, h HistSpec) (*replicaEnv, error) {
 				return nil, err
 			}
 			for k, n := 0, 1+r.Intn(3); k < n; k++ {
-				switch r.Intn(4) {
+				op := r.Intn(4)
+				if k == 0 {
+					op = 3 // every transaction changes something: one L0 file per transaction
+				}
+				switch op {
 				case 0:
 					_, err = tx.Exec("UPDATE t SET v=? WHERE id=(SELECT id FROM t ORDER BY id LIMIT 1 OFFSET ?)", blob(20+r.Intn(60)), r.Intn(8))
 				case 1:
